@@ -13,7 +13,7 @@ class RecursiveTimedMutex : public RecursiveMutex {
 
   template <typename Rep, typename Period>
   bool try_lock_for(const std::chrono::duration<Rep, Period>& timeout_duration) {
-    return TimedWaitHelper(timeout_duration);
+    return TimedWaitHelper(SystemClock::now() + timeout_duration);
   }
 
   template <typename Clock, typename Duration>
@@ -24,16 +24,13 @@ class RecursiveTimedMutex : public RecursiveMutex {
  private:
   template <typename Timeout>
   bool TimedWaitHelper(const Timeout& timeout) {
-    bool r = true;
-    if (_occupied_count != 0 && _owner_id != fault::Scheduler::GetId()) {
-      r = _queue.Wait(timeout) == WaitStatus::Ready;
+    while (_occupied_count != 0 && _owner_id != fault::Scheduler::GetId()) {
+      if (_queue.Wait(timeout) != WaitStatus::Ready) {
+        return false;
+      }
     }
-    YACLIB_DEBUG(r && (_occupied_count != 0 && _owner_id != fault::Scheduler::GetId()),
-                 "about to be locked twice and not in a good way");
-    if (r) {
-      LockHelper();
-    }
-    return r;
+    LockHelper();
+    return true;
   }
 };
 
